@@ -196,6 +196,12 @@ theorem direct_sampler_is_the_param (ps : List (String × String)) :
   rw [a] at b; exact Option.some.inj b
 
 open Pyc.DirectTex in
+/-- parameters are made up for exactly the images named — a surface and a sampler each — and for nothing else -/
+theorem direct_params_exactly_named (ps : List (String × String)) (k : PId) :
+    k ∈ (run ps).params.map (·.1) ↔ ∃ p ∈ ps, k = .samp p.2 ∨ k = .surf p.2 :=
+  ids_run ps k
+
+open Pyc.DirectTex in
 /-- every property gets a map: the number of maps is the number of properties, in order -/
 theorem direct_every_property_mapped (ps : List (String × String)) :
     (run ps).maps.map (fun m => (m.1, m.2.1)) = ps := by
